@@ -44,6 +44,7 @@ func gen(c *lib.Ctx) {
 	}
 	if all || part != "c06" {
 		genBulkBelowCap(c)
+		genPar(c, c.Scale(40, 300))
 		genCapacity(c) // quick: boundary stream + a few random ops; thorough: + 150 random ops
 		if c.Thorough() {
 			genConcurrent(c)
@@ -652,6 +653,8 @@ func genCapacity(c *lib.Ctx) {
 		h.do("srv.digest")
 		h.checkHeapWalk()
 	}
+	h.parAtCapacity(c, c.Scale(2, 6), &late, newcomer)
+	h.do("srv.digest")
 	h.do("srv.reset")
 	h.do("srv.mode full")
 	h.clear()
